@@ -102,9 +102,6 @@ theorem populate_children_legal (basis : Array W) (p : Pos) (m : Move) (q : Pos)
 
 /-! ## corner forcing -/
 
-theorem wrap8_small (v : Nat) (h : v ≤ 7) : wrap8 (v : Int) = (v : Int) := by
-  unfold wrap8; omega
-
 /-- what `cornerMove` returns, whatever the random bits were: a flat placement on one of the four corner
 squares, and that corner is empty -/
 theorem corner_on_board (p : Pos) (bits : List Bool) (m : Move) (hs : 1 ≤ p.cfg.size ∧ p.cfg.size ≤ 8)
@@ -124,11 +121,6 @@ theorem corner_on_board (p : Pos) (bits : List Bool) (m : Move) (hs : 1 ≤ p.cf
       rw [← h, wrap8_small row hr, wrap8_small col hc]
     · simpa using hocc
   | case3 bits hne => cases h
-
-theorem squareAt_nil (p : Pos) (i : Nat) (h : (p.white ||| p.black).getLsbD i = false) : p.squareAt i = [] := by
-  simp only [BitVec.getLsbD_or, Bool.or_eq_false_iff] at h
-  unfold Pos.squareAt Pos.topAt
-  simp [h.1, h.2]
 
 /-- **The forced corner move is legal**: on a position of the first two plies (where corner forcing
 applies) with stones left in reserve, the move `cornerMove` returns is accepted by the rule book
